@@ -22,6 +22,7 @@ import LarkVerif.Serialize
 import LarkVerif.Threads
 import LarkVerif.Mangle
 import LarkVerif.Priority
+import LarkVerif.Choice
 import LarkVerif.Recons
 import Std.Data.HashMap
 /-! Line-protocol driver: one JSON request per stdin line (`{"op": ...}`), one JSON answer per stdout line.
@@ -336,6 +337,16 @@ def runRuleSize (j : Json) : Except String Json := do
   let e ← eOf (← j.getObjVal? "body")
   pure (Json.mkObj [("size", natJ (size e)), ("longest", natJ (longest (alts e)))])
 
+open ChoiceProto in
+/-- C05: the families of one symbol node in iteration order as [isEmpty, priority, rule.order] → index of the chosen one -/
+def runChoose (j : Json) : Except String Json := do
+  let nodes ← (← getArr j "nodes").mapM fun nd => do
+    (← nd.getArr?).toList.mapM fun f => do
+      match (← f.getArr?).toList with
+      | [e, p, o] => pure (⟨← boolOf e, ← p.getInt?, ← o.getNat?⟩ : Fam)
+      | _ => throw "fam"
+  pure (Json.arr (nodes.map fun l => match chooseIdx l with | some i => natJ i | none => Json.null).toArray)
+
 open ShapeProto in
 def symInfoOf (j : Json) : Except String SymInfo := do
   match (← j.getArr?).toList with
@@ -601,6 +612,7 @@ def handle (j : Json) : Except String Json := do
   | "lr_parse" => runLrParse j
   | "lr_feed" => runLrFeed j
   | "rule_size" => runRuleSize j
+  | "choose" => runChoose j
   | _ => throw s!"unknown op {op}"
 
 partial def loop (h : IO.FS.Stream) (out : IO.FS.Stream) : IO Unit := do
